@@ -36,6 +36,10 @@
   'bound':'Feat table of at most 75 bytes, every byte arbitrary (so numFeats <= 3: a fourth 16-byte record does not fit), num_settings of each record <= 3; any allocation may fail except new FeatureRef[] (see assumptions)',
   'assumptions':['the new-expression `new FeatureRef[m_numFeats]` does not yield NULL: FeatureRef::operator new[] is not noexcept, so a NULL result is undefined behaviour in C++ (gcc emits no null check and the element constructors would run on address 0); every other allocation (gralloc, new NameAndFeatureRef[]) may fail'],
   'claims':'FeatureMap::readFeats followed by ~FeatureMap: on every path (table absent, refused, any allocation but the first failing, success) every block allocated by the call is either freed before it returns (the defVals scratch array on every path) or owned by the FeatureMap and freed exactly once by its destructor, so that no allocation is left and nothing is freed twice; the Feat table is not touched after readFeats returned; every read stays inside the exact-size table and every write inside the allocated blocks'}@*/
+/*@unit {'name':'c16_readfeats_newfail', 'props':['C16','C01'], 'entry':'h_readfeats', 'kind':'bounded', 'unwind':4, 'defines':['FM=1','NEW_FEATS_MAY_FAIL'], 'unwindset':['Vector_insert_n.0:8','Vector_erase.0:8'], 'checks':['--memory-leak-check'],
+  'bound':'Feat table of at most 75 bytes, every byte arbitrary (so numFeats <= 3: a fourth 16-byte record does not fit), num_settings of each record <= 3; any allocation may fail except new FeatureRef[] (see assumptions)',
+  'assumptions':['the new-expression `new FeatureRef[m_numFeats]` does not yield NULL: FeatureRef::operator new[] is not noexcept, so a NULL result is undefined behaviour in C++ (gcc emits no null check and the element constructors would run on address 0); every other allocation (gralloc, new NameAndFeatureRef[]) may fail'],
+  'claims':'(variant modelling a build with -fcheck-new: new FeatureRef[] may yield NULL; defVals must still be freed - repaired in /repo, fix: a558a46a) FeatureMap::readFeats followed by ~FeatureMap: on every path (table absent, refused, any allocation but the first failing, success) every block allocated by the call is either freed before it returns (the defVals scratch array on every path) or owned by the FeatureMap and freed exactly once by its destructor, so that no allocation is left and nothing is freed twice; the Feat table is not touched after readFeats returned; every read stays inside the exact-size table and every write inside the allocated blocks'}@*/
 /*@unit {'name':'c16_readfeats_bitsguard', 'props':['C16'], 'entry':'h_bitsguard', 'kind':'bounded', 'unwind':3, 'defines':['FM=1'], 'checks':['--memory-leak-check'],
   'bound':'the one branch of readFeats that c16_readfeats cannot reach within its bound (the running bit offset exceeds 254 words, which takes more than 200 features): the if-statement is extracted as a range and run for every 16-bit offset',
   'claims':'the feature-word guard at the top of the record loop of readFeats: when it refuses (returns false) it frees defVals exactly once and frees nothing else, in particular nothing the FeatureMap owns; otherwise it frees nothing'}@*/
